@@ -437,6 +437,25 @@ def bulk_case(case, acc):
         th = threading.Thread(target=writer, daemon=True)
         th.start()
         eof = False
+        if tr == 'popen' and case.get('wait_first', case['rs'] % 2 == 0):
+            # the caller asks for the child's status first and reads afterwards; the reader thread is slowed down a
+            # little (0.3 ms per pipe read), so it is still busy moving the last burst out of the pipe when wait()
+            # comes back
+            import pexpect.popen_spawn as pps
+
+            class SlowOs(object):
+                def read(self, fd, n):
+                    time.sleep(0.0003)
+                    return os.read(fd, n)
+
+                def __getattr__(self, nm):
+                    return getattr(os, nm)
+            pps.os = SlowOs()
+            try:
+                acc.count('popen_wait_before_reading')
+                c.wait()
+            finally:
+                pps.os = os
         t0 = time.time()
         if case['reader'] == 'expect':
             try:
@@ -759,6 +778,9 @@ def plan(tier, seed):
         for maxread in ((10000, 65536) if tier == 'quick' else (5000, 10000, 20000, 65536, 200000)):
             cases.append({'kind': 'bulk', 'tr': tr, 'total': 300000, 'maxread': maxread, 'rs': maxread + len(tr),
                           'reader': 'loop'})
+    for i in range(6 if tier == 'quick' else 80):
+        cases.append({'kind': 'bulk', 'tr': 'popen', 'total': [60000, 300000, 9000][i % 3], 'maxread': [2000, 65536][i % 2],
+                      'rs': 1000 + i, 'reader': ['loop', 'expect'][i % 2], 'wait_first': True})
     for pl in (['W', 'X'], ['W', 'W', 'X'], ['X']):
         for p in placements(len(pl), 4 if tier == 'quick' else 6):
             cases.append({'kind': 'popen-placement', 'plan': pl, 'placement': list(p), 'size': 7 if sum(p) % 2 else 2000})
